@@ -8,7 +8,7 @@
    split_string / quote_join = Model/C11sh.v : shlex.split / shlex.join                              *)
 From Coq Require Import Ascii String Bool List.
 From CBI Require Import Lib.Data Lib.C11_types Gen.C11_tables Model.C11 Model.C11sh Spec.C11 Spec.C11safe Spec.C11safe_more Spec.C11sh
-                        Proofs.C11 Proofs.C11exit Proofs.C11sh Proofs.C11shr.
+                        Proofs.C11 Proofs.C11exit Proofs.C11prefix Proofs.C11sh Proofs.C11shr.
 Import ListNotations.
 Local Open Scope string_scope.
 
@@ -89,6 +89,16 @@ Theorem C11_no_abort : forall argv : list string,
   exists a, parse_args argv = ROk a \/ parse_args argv = RWarned a.
 Proof. exact no_abort. Qed.
 Print Assumptions C11_no_abort.
+
+(* FULL in the continuation (l2 is ARBITRARY apart from the literal "-i", whose ambiguity is detected before any
+   option is processed - see C11_unsafe_refuted_abbrev_ambiguous): whatever follows a safe prefix, everything the
+   prefix gives is in the configuration, in order, in front of whatever the rest contributes.  So each finding
+   class can only cost the options that come AFTER its first occurrence. *)
+Theorem C11_safe_prefix_kept : forall l1 l2 : list string,
+  safe l1 = true -> ~ In "-i" l2 ->
+  exists rest, lists_of (parse_args (List.app l1 l2)) = Some (app3v (some3 (scan_S l1)) rest).
+Proof. exact safe_prefix_kept. Qed.
+Print Assumptions C11_safe_prefix_kept.
 
 (* order: the scanner is a homomorphism at every point where no flag awaits its value (all argv) ... *)
 Theorem C11_order_S : forall l1 l2 : list string,
